@@ -462,7 +462,16 @@ fn liq_case(s: &Scen, rng: &mut Rng, stranger: Pubkey) -> Option<String> {
     }
     let mut signer = s.users[v].wallet;
     for _ in 0..(if rng.chance(2, 3) { 0 } else { 1 + rng.below(2) }) {
-        match rng.below(10) {
+        match rng.below(11) {
+            10 => {
+                // the collateral's or the debt's (fixed) price is exactly zero: no liquidation may be sized at it
+                let hb = s.banks[if rng.chance(1, 2) { ai } else { li }];
+                let mut bk = w.bank(&hb.bank);
+                if bk.config.oracle_setup == marginfi_type_crate::types::OracleSetup::Fixed {
+                    bk.config.fixed_price = I80F48::ZERO.into();
+                    w.set_bank(&hb.bank, &bk);
+                }
+            }
             0 => {
                 let _ = w.exec(&ix::panic_pause(s.fee_admin));
                 let _ = w.exec(&ix::propagate_fee_state(s.group));
@@ -718,6 +727,9 @@ fn recv_case(s: &Scen, rng: &mut Rng, stranger: Pubkey) -> Option<String> {
         a.account_flags |= *rng.pick(&[ACCOUNT_DISABLED, ACCOUNT_IN_FLASHLOAN, ACCOUNT_IN_RECEIVERSHIP]);
         w.set_marginfi_account(&acct_key, &a);
     }
+    // (the filler instruction of the transactions below is an accrual crank on bank 0: it runs here once, so that inside the
+    // transaction it changes nothing and the start sees exactly the state the line describes)
+    let _ = w.exec(&ix::accrue(&h));
     let risk = w.remaining_in_slot_order(&acct_key);
     if rng.chance(1, 2) {
         // ---- the start, inside a transaction
@@ -850,6 +862,7 @@ fn delev_case(s: &Scen, rng: &mut Rng, stranger: Pubkey, risk_admin: Pubkey) -> 
         w.set_marginfi_account(&acct_key, &a);
     }
     let signer = if rng.chance(3, 4) { risk_admin } else { *rng.pick(&[stranger, s.admin, s.users[u].wallet]) };
+    let _ = w.exec(&ix::accrue(&h)); // (the filler of the transactions below: a no-op inside them)
     let risk = w.remaining_in_slot_order(&acct_key);
     if rng.chance(1, 2) {
         let record_ok = rng.chance(7, 8);
@@ -1136,7 +1149,22 @@ fn one_case(s: &Scen, c: &Case, rng: &mut Rng, stranger: Pubkey, risk_admin: Pub
     let mut vault_passed = h.liquidity_vault;
     let mut fake_banks: Vec<Pubkey> = vec![];
     for _ in 0..np {
-        match rng.below(17) {
+        match rng.below(18) {
+            17 => {
+                // the bank's (fixed) price is exactly zero: legal for the admin to set; a withdrawal in receivership must not be
+                // sized at it
+                let mut b = w.bank(&h.bank);
+                if b.config.oracle_setup == marginfi_type_crate::types::OracleSetup::Fixed {
+                    b.config.fixed_price = I80F48::ZERO.into();
+                    w.set_bank(&h.bank, &b);
+                }
+                if rng.chance(2, 3) {
+                    let mut a = w.marginfi_account(&acct_key);
+                    a.account_flags |= ACCOUNT_IN_RECEIVERSHIP;
+                    w.set_marginfi_account(&acct_key, &a);
+                    if rng.chance(1, 2) { signer = stranger; }
+                }
+            }
             0 => {
                 let _ = w.exec(&ix::panic_pause(s.fee_admin));
                 let _ = w.exec(&ix::propagate_fee_state(s.group));
